@@ -21,6 +21,17 @@ PROPS = {
     },
 }
 
+PROPS["C07"] = {
+    "units": ["h1_payload"],
+    "kani": [],
+    "technique": "Verus contracts on the extracted real h1::payload::Inner (representation invariant len == sum of queued chunks, whole-view postconditions with frames, waker tokens) plus a history lemma over those contracts",
+    "level_text": "deductive proof for every operation of the body channel's shared state, for all inputs: FIFO order and exact bytes, ordering data -> error -> clean end, clean end only when the end flag is set and that flag is only set by feed_eof/new(true), Incomplete error when the sender goes away first, every sender-side mutation wakes and clears the registered reader, Pending registers the reader and wakes the feeder; history lemma (received is a prefix of fed) by induction over the contracts",
+    "level_note": "assumes: shim contracts for VecDeque (vstd), Option::take, Waker/Context (wake establishes the woken token); register/register_io (closure inside Option::is_none_or) are external_body with an assumed contract; the Rc/Weak/RefCell glue of Payload/PayloadSender is not under contract (not_decided_clauses); wake-up DELIVERY by the runtime is outside any contract",
+    "not_decided": ["Payload/PayloadSender glue (Rc<RefCell<Inner>>, Weak::upgrade, Drop for PayloadSender calling close_sender): not under contract in this unit",
+                    "that the executor actually polls a woken task (runtime behaviour)"],
+    "assumptions": ["feed_data/unread_data precondition: len + data.len() <= usize::MAX (sum of live allocations cannot exceed the address space)"],
+}
+
 _PENDING = "not claimed yet: contracts for this property are still under construction in this session"
 NOT_APPLICABLE = {("C%02d" % i): _PENDING for i in range(1, 20)}
 NOT_APPLICABLE["C06"] = "every clause is about instants (deadlines vs. arrival times, runtime timer ordering); no function contract expresses virtual time or scheduler ordering (DESIGN.md section 4 C06)"
